@@ -28,7 +28,7 @@ class Spec:
     proj: bool = False                  # map 1->0 in consumed content
     split: bool = False                 # one redo-ifchange per dependency instead of one call
     tag: str = ""                       # distinguishes .do variants with otherwise equal specs
-    noise: int = 0                      # >0: write tagged lines to stderr (1: whole+split+long lines, 2: also a record-like line)
+    noise: int = 0                      # >0: write tagged lines to stderr (1: whole+split+long lines, 2: also a record-like line, 4: also an unterminated last line)
     seq: Tuple[Tuple[str, Tuple[str, ...]], ...] = ()   # "driver": commands run in order inside this one script, failures recorded not fatal
     fail_undeclared: bool = False       # the fail flag is read without declaring it as a dependency
     sync: Tuple[Tuple[str, str, str], ...] = ()   # E2 only: (position start|mid|end, action wait|set, flag) -- scripts that wait for each other
@@ -119,7 +119,7 @@ def script_text(spec: Spec, variant: int, dofile: str, gates: bool = False) -> s
                 L.append('vgate p "h:$1"')
         L.append('printf "p4\\n" >&2')
         L.append('printf "L $1 3 %s\\n" "$(head -c 20000 /dev/zero | tr \'\\0\' x)" >&2')
-        if spec.noise >= 2:
+        if spec.noise == 2:
             L.append('echo "@@REDO:do:1:1.0000@@ L-$1-fake" >&2')
     if spec.out == "append":
         # legitimate because redo promises that $3 does not exist when the script starts
@@ -209,6 +209,8 @@ def script_text(spec: Spec, variant: int, dofile: str, gates: bool = False) -> s
     sync("end")
     if spec.noise:
         L.append('echo "L $1 4 after dependencies" >&2')
+        if spec.noise == 4:
+            L.append('printf "L $1 6 no newline at the end" >&2')   # the script's last output is an unterminated line
     if gates:
         L.append('vgate p "e:$1"')
         L.append('vgate n "work-end $1"')
